@@ -672,3 +672,72 @@ def second_workflow_specs():
         sp["label"] = "second-workflow:%s" % k
         out.append(sp)
     return out
+
+
+# ------------------------------------------------------------------------------------------------
+# medium-sized models (10-14 tasks / workers / facilities / components, 20-60 steps): behaviour that only starts above a size
+# ------------------------------------------------------------------------------------------------
+def scale_specs():
+    out = []
+    # (1) twelve parallel tasks, twelve pooled workers with numeric-string IDs ("1".."12"), unequal works
+    n = 12
+    tasks = [{"name": "T%d" % i, "id": "T%d" % i, "work": float(1 + (i * 5) % 7)} for i in range(n)]
+    full = {t["name"]: 1.0 for t in tasks}
+    ws = [{"name": "P%d" % (i + 1), "id": str(i + 1), "skills": dict(full), "cost": float(1 + i % 3)} for i in range(n)]
+    out.append({"tasks": tasks, "links": [], "teams": [{"name": "TM0", "targets": list(range(n)), "workers": ws}], "label": "scale:wide12"})
+    # (2) the same with half as many workers and one solo worker
+    ws2 = [dict(w) for w in ws[:6]]
+    ws2[2]["solo"] = True
+    out.append({"tasks": tasks, "links": [], "teams": [{"name": "TM0", "targets": list(range(n)), "workers": ws2}], "label": "scale:wide12-6workers"})
+    # (3) a chain of ten tasks with a side branch every third task, two workers
+    n = 10
+    tasks = [{"name": "T%d" % i, "work": float(1 + i % 3)} for i in range(n + 3)]
+    links = [[i, i + 1, "FS"] for i in range(n - 1)] + [[0, n, "SS"], [3, n + 1, "FF"], [6, n + 2, "SF"]]
+    out.append(with_teams({"tasks": tasks, "links": links, "label": "scale:chain10+branches"}, "POOL2"))
+    out[-1]["label"] = "scale:chain10+branches"
+    # (4) three layers of four tasks, every task of a layer linked to two tasks of the next with rotating kinds, three teams
+    tasks = [{"name": "T%d" % i, "work": float(1 + (i * 3) % 4)} for i in range(12)]
+    kinds = ("FS", "SS", "FF", "FS", "SF", "FS")
+    links = []
+    for layer in range(2):
+        for j in range(4):
+            a = layer * 4 + j
+            for d in (0, 1):
+                links.append([a, (layer + 1) * 4 + (j + d) % 4, kinds[(a + d) % len(kinds)]])
+    teams = []
+    for k in range(3):
+        tg = list(range(k * 4, k * 4 + 4))
+        teams.append({"name": "TM%d" % k, "targets": tg, "workers": [{"name": "W%d_%d" % (k, i), "skills": {"T%d" % t: 1.0 for t in tg}, "cost": float(1 + i)} for i in range(4)]})
+    out.append({"tasks": tasks, "links": links, "teams": teams, "label": "scale:layers3x4"})
+    # (5) eight components with one facility task each, a workplace with eight machines and one with two, ten workers
+    n = 8
+    tasks = [{"name": "T%d" % i, "work": float(2 + i % 3), "nf": True} for i in range(n)] + [{"name": "T%d" % (n + i), "work": 2.0} for i in range(2)]
+    comps = [{"name": "C%d" % i, "tasks": [i], "space": 1.0} for i in range(n)]
+    sk = {"T%d" % i: 1.0 for i in range(n + 2)}
+    wps = [{"name": "WP0", "cap": 8.0, "targets": list(range(n)), "facilities": [{"name": "F%d" % i, "skills": {"T%d" % j: 1.0 for j in range(n)}, "cost": float(1 + i % 2)} for i in range(8)]},
+           {"name": "WP1", "cap": 2.0, "targets": list(range(n)), "facilities": [{"name": "G%d" % i, "skills": {"T%d" % j: 2.0 for j in range(n)}, "cost": 3.0} for i in range(2)]}]
+    fsk = {f["name"]: 1.0 for wp in wps for f in wp["facilities"]}
+    teams = [{"name": "TM0", "targets": list(range(n + 2)), "workers": [{"name": "W%d" % i, "skills": dict(sk), "fskills": dict(fsk), "cost": 1.0} for i in range(10)]}]
+    out.append({"tasks": tasks, "links": [[0, n, "FS"], [1, n + 1, "FS"]], "components": comps, "workplaces": wps, "teams": teams, "label": "scale:8components"})
+    # (6) a task with seven predecessors of mixed kinds
+    tasks = [{"name": "T%d" % i, "work": float(1 + i % 3)} for i in range(8)]
+    links = [[i, 7, ("FS", "SS", "FF", "SF")[i % 4]] for i in range(7)]
+    out.append(with_teams({"tasks": tasks, "links": links}, "DED"))
+    out[-1]["label"] = "scale:seven-predecessors"
+    return out
+
+
+SCALE_ABSENCE = ([], [3, 4, 9, 15, 16, 17, 22, 23, 30, 31], [0, 1, 2, 3, 4, 5, 6, 7, 8, 9, 10, 11], [2, 5, 8, 11, 14, 17, 20, 23, 26, 29, 32, 35])
+
+
+def scale_items(rules=("TSLACK",)):
+    """(spec, opts) for the medium-sized models: no absence, scattered absence steps, a long block, a regular pattern; plus long individual calendars"""
+    out = []
+    for sp in scale_specs():
+        for ab in SCALE_ABSENCE:
+            for rule in rules:
+                out.append((sp, {"rule": rule, "absence": list(ab), "max_time": seq_bound(sp) + len(ab) + 10}))
+        who = worker_names(sp)[:2] + facility_names(sp)[:1]
+        ra = {w: [1, 2, 4, 6, 7, 8, 10, 12] if i == 0 else [0, 3, 5, 9, 11, 13, 14, 15] for i, w in enumerate(who)}
+        out.append((sp, {"rule": rules[0], "absence": [5, 6], "res_absence": ra, "max_time": seq_bound(sp) + 30}))
+    return out
